@@ -234,6 +234,9 @@ func (r *LayerManager) resolveLayer(ctx context.Context, refspec reference.Spec,
 	}
 	r.mu.Unlock()
 	defer func() {
+		if retErr != nil {
+			return // do not memoise failures: the next lookup must try again
+		}
 		r.mu.Lock()
 		if r.resolveLayerCache == nil {
 			r.resolveLayerCache = make(map[string]map[string]error)
